@@ -273,7 +273,13 @@ class C04(Check):
             if err:
                 failures.append(Failure("run_sim-raises-on-time-schedule", "run_sim raised on a time-control schedule: " + err, {"schedule": s, "error": err}))
                 continue
-            if impl_rows != model_rows:
+            has_rules = any(c["kind"] == "R" for c in s["controls"])
+            relaxed = has_rules and not schedgen.rule_window_repaired(wntr)
+            if impl_rows != model_rows and relaxed:
+                # the model follows the repaired rule window; on an unrepaired tree rule schedules may differ: that is the
+                # known finding rule-eq-premise-missed (reported by _rule_eq_oracle), not a broken tie
+                ctx.count("rule-schedule-differs-on-unrepaired-tree")
+            elif impl_rows != model_rows:
                 nd += 1
                 k = next((i for i in range(min(len(impl_rows), len(model_rows))) if impl_rows[i] != model_rows[i]), min(len(impl_rows), len(model_rows)))
                 if nd <= 3:
@@ -281,8 +287,7 @@ class C04(Check):
                                          "schedule %s\nfirst difference at row %d: implementation %s, model %s"
                                          % (json.dumps(s), k, impl_rows[k] if k < len(impl_rows) else None, model_rows[k] if k < len(model_rows) else None)))
             impl_rule_times = schedgen.RULE_TIMES[0] if schedgen.RULE_TIMES else []
-            has_rules = any(c["kind"] == "R" for c in s["controls"])
-            if has_rules and impl_rule_times != model_rule_times:
+            if has_rules and impl_rule_times != model_rule_times and not (relaxed and impl_rows != model_rows):
                 nd += 1
                 if nd <= 3:
                     broken.append(Broken("correspondence", "Sched.lean rule-evaluation times vs WNTRSimulator",
@@ -412,6 +417,79 @@ class C04(Check):
             ctx.count("same-step-designed")
         return out
 
+    def _start_schedules(self, ctx, n):
+        """designed: what happens around the START of the simulation with a non-zero start_clocktime: daily (and one-shot)
+        clock `=` controls whose time of day lies within one hydraulic step BEFORE start_clocktime (first instant on the
+        next day -- nothing is crossed by starting), exactly ON it (instant t=0, served by the first step) or shortly after
+        it; sim-time `=` controls at t=0 and t=1; every action changes its target; report ALL; some runs longer than a day
+        so that the next-day occurrence is judged too"""
+        rng = ctx.rng
+        out = []
+        for i in range(n):
+            hyd = rng.choice([900, 1800, 3600, 7200])
+            sc = rng.choice([3600 * rng.randint(1, 23), rng.randint(1, 86399), 6 * 3600])
+            init = {str(k): rng.randint(0, 1) for k in range(schedgen.NT)}
+            ctls = []
+            tgts = rng.sample(range(schedgen.NT), rng.randint(1, 3))
+            for j, tg in enumerate(tgts):
+                kind = rng.choice(["before", "before", "on", "after", "sim0", "sim1"])
+                v = 1 - init[str(tg)]
+                if kind == "before":
+                    cond = ("tod", "eq", (sc - rng.choice([1, hyd - 1, rng.randint(1, hyd - 1), hyd // 2])) % 86400, rng.choice([1, 1, 0]), 0)
+                elif kind == "on":
+                    cond = ("tod", "eq", sc % 86400, 1, 0)
+                elif kind == "after":
+                    cond = ("tod", "eq", (sc + rng.randint(1, hyd)) % 86400, 1, 0)
+                elif kind == "sim0":
+                    cond = ("sim", "eq", 0, rng.choice([0, 0, 86400]))
+                else:
+                    cond = ("sim", "eq", 1, 0)
+                ctls.append({"id": j, "kind": "P", "prio": rng.choice([3, 3, 1, 5]), "cond": cond, "then": [(tg, v)], "else": []})
+                ctx.count("start-designed:" + kind)
+            dur = rng.choice([3 * hyd, 5 * hyd, 86400 + 2 * hyd])
+            out.append({"hyd": hyd, "rule": rng.choice([360, 600, hyd]), "report": 0, "duration": dur, "start_clock": sc, "controls": ctls, "init": init})
+        return out
+
+    def _rule_eq_oracle(self, ctx, failures):
+        """rules with an `=` time premise against the rule-grid specification: the rule acts at the first positive rule
+        timestep r >= its instant c (r - rule_step < c <= r), and r is a solved time -- also when a simple control on another
+        link makes the simulator solve between c and r, before c in the same rule interval, or not at all"""
+        wntr = vlib.import_wntr()
+        rng = ctx.rng
+        n = 18 if ctx.quick else 120
+        cases = [(3600, 1800, 13260, 13980, "sim", 0)]  # the directed case of the C03 owner (3:41 / 3:53, 30 min rule step)
+        for i in range(n):
+            hyd = rng.choice([1800, 3600, 7200])
+            rule = rng.choice([300, 600, 900, 1800])
+            k = rng.randint(1, 3 * hyd // rule + 4)
+            c = rule * k - rng.randint(1, rule - 1)          # strictly inside the rule interval (r - rule, r)
+            r = rule * k
+            mode = i % 3
+            at = None
+            if mode == 0 and r - c >= 2:
+                at = rng.randint(c + 1, r - 1)                # a solve between the instant and the rule timestep
+            elif mode == 1 and c - (r - rule) >= 2:
+                at = rng.randint(r - rule + 1, c - 1)         # a solve inside the interval but before the instant
+            sc = rng.choice([0, 0, 3600 * rng.randint(1, 23)])
+            cases.append((hyd, rule, c, at, rng.choice(["sim", "sim", "tod"]), sc))
+        for hyd, rule, c, at, kind, sc in cases:
+            r = -(-c // rule) * rule
+            cond = ("sim", "eq", c, 0) if kind == "sim" else ("tod", "eq", (c + sc) % 86400, 1, 0)
+            ctls = [{"id": 0, "kind": "R", "prio": 3, "cond": cond, "then": [(0, 1)], "else": []}]
+            if at is not None:
+                ctls.append({"id": 1, "kind": "P", "prio": 3, "cond": ("sim", "eq", at, 0), "then": [(1, 0)], "else": []})
+            s = {"hyd": hyd, "rule": rule, "report": 0, "duration": (r // hyd + 2) * hyd, "start_clock": sc, "init": {"0": 0, "1": 1}, "controls": ctls}
+            rows, _ = schedgen.run_impl(wntr, schedgen.build_wn(wntr, s))
+            ctx.case(("ruleeq", hyd, rule, c, at, kind, sc), True)
+            ctx.count("rule-eq:" + ("stop-after-instant" if at is not None and at > c else "stop-before-instant" if at is not None else "no-stop"))
+            first_open = next((t for t, v in rows if v[0] == 1), None)
+            if first_open != r:
+                failures.append(Failure("rule-eq-premise-missed",
+                                        "rule `IF %s = %d` (rule step %d, hydraulic step %d%s): must act at the rule timestep %d, observed %s"
+                                        % ("SYSTEM TIME" if kind == "sim" else "SYSTEM CLOCKTIME", c if kind == "sim" else (c + sc) % 86400, rule, hyd,
+                                           ", simple control at %d" % at if at is not None else "", r, "never" if first_open is None else "at %d" % first_open),
+                                        {"schedule": s, "expected_at": r, "observed_at": first_open, "timeline": [(t, v[0]) for t, v in rows][:14]}))
+
     def _rule_priority_oracle(self, ctx, failures):
         """two rules with the same time condition and opposite actions on one target: from the first positive rule
         timestep at which the condition holds the target has the value of the HIGHER priority rule (later registration
@@ -425,7 +503,9 @@ class C04(Check):
             rule = rng.choice([300, 360, 600, 900])
             k = rng.randint(1, 20)
             thr = rule * k - rng.choice([0, 0, rng.randint(0, rule - 1)])
-            p1, p2 = rng.sample([0, 1, 2, 3, 4, 5], 2) if i % 4 else (3, 3)
+            # distinct priorities only: the statement fixes the outcome for different priorities; for EQUAL priorities the code
+            # (and the model, `winner`) lets the later registered rule win while EPANET keeps the first -- outside C04
+            p1, p2 = rng.sample([0, 1, 2, 3, 4, 5], 2)
             v1 = rng.randint(0, 1)
             order = rng.random() < 0.5
             r1 = {"id": 0, "kind": "R", "prio": p1, "cond": ("sim", "ge", thr, 0), "then": [(0, v1)], "else": []}
@@ -475,9 +555,11 @@ class C04(Check):
                     c["cond"] = (c["cond"][0], "eq") + tuple(c["cond"][2:])
             scheds.append(s)
         scheds += self._same_step_schedules(ctx, 16 if ctx.quick else 120)
+        scheds += self._start_schedules(ctx, 16 if ctx.quick else 120)
         self._run_schedules(ctx, failures, broken, scheds, "random")
         self._rule_grid_oracle(ctx, failures)
         self._rule_priority_oracle(ctx, failures)
+        self._rule_eq_oracle(ctx, failures)
         return failures, broken
 
     def search(self, ctx, broken):
@@ -491,9 +573,11 @@ class C04(Check):
                 if c["cond"][1] != "eq":
                     c["cond"] = (c["cond"][0], "eq") + tuple(c["cond"][2:])
         scheds += self._same_step_schedules(ctx, 40)
+        scheds += self._start_schedules(ctx, 40)
         self._run_schedules(ctx, failures, b2, scheds, "search")
         self._rule_grid_oracle(ctx, failures)
         self._rule_priority_oracle(ctx, failures)
+        self._rule_eq_oracle(ctx, failures)
         return failures
 
     def replay(self, ctx, path):
